@@ -174,35 +174,42 @@ LAYOUT_CALLS = {'numpy.squeeze', 'numpy.atleast_1d', 'numpy.atleast_2d', 'numpy.
 LAYOUT_METHS = {'squeeze', 'reshape', 'copy', 'flatten', 'ravel', 'transpose', 'view'}
 
 
-def _layout_only(t, inp):
+def _layout_only(t, inp, conds=()):
     """None if t is `inp` seen through layout-only operations (indexing by slices / new axes / 0, squeeze, reshape,
-    copy, transpose, as-array without a dtype change); otherwise the offending sub-term."""
+    copy, transpose, as-array without a dtype change); otherwise the offending sub-term.  Index -1 is element 0 on an
+    axis the path conditions show to have length one."""
     if t == inp:
         return None
     if t[0] == 'sub':
         idx = t[2]
         items = idx[1] if idx[0] == 'tuple' else (idx,)
+        axis = 0
         for it in items:
             ok = it[0] == 'slice' and all(is_c(x) for x in it[1:4]) or it == ('ref', 'numpy.newaxis') \
                 or (is_c(it) and (it[1] is None or it[1] is Ellipsis or it[1] == 0))
+            if not ok and it == C(-1):
+                want = ('cmp', '==', ('sub', ('attr', t[1], 'shape'), C(axis)), C(1))
+                ok = any(cd == want and tr for cd, tr, ln in conds)
             if not ok:
                 return t
-        return _layout_only(t[1], inp)
+            if not (is_c(it) and it[1] is None) and it != ('ref', 'numpy.newaxis'):
+                axis += 1
+        return _layout_only(t[1], inp, conds)
     if t[0] == 'attr' and t[2] == 'T':
-        return _layout_only(t[1], inp)
+        return _layout_only(t[1], inp, conds)
     if t[0] == 'meth' and t[1] in LAYOUT_METHS:
         # the arguments may use the array's own shape / size, never its values
         for a in t[3]:
             masked = substitute(a, {('attr', inp, k): C(0) for k in ('shape', 'ndim', 'size')})
             if inp in set(subterms(masked)):
                 return t
-        return _layout_only(t[2], inp)
+        return _layout_only(t[2], inp, conds)
     if t[0] == 'call' and t[1] in LAYOUT_CALLS and t[2]:
         kw = dict(t[3])
         dt = kw.get('dtype')
-        if dt is not None and not (dt[0] == 'attr' and dt[2] == 'dtype' and _layout_only(dt[1], inp) is None):
+        if dt is not None and not (dt[0] == 'attr' and dt[2] == 'dtype' and _layout_only(dt[1], inp, conds) is None):
             return t
-        return _layout_only(t[2][0], inp)
+        return _layout_only(t[2][0], inp, conds)
     return t
 
 
@@ -230,7 +237,7 @@ def rule_layout_only(ctx, rid, names=None):
                 break
             n += 1
             for inp, out in zip((x, y), v[1]):
-                off = _layout_only(out, inp)
+                off = _layout_only(out, inp, e.state.conds)
                 if off is not None:
                     bad = (e, 'input %s comes back as %s: %s is not a layout-only operation on that input'
                            % (inp[1][0], show(out)[:70], show(off)[:70]))
